@@ -24,6 +24,7 @@ impl MainState {
 //@fn state/rest_cmds.rs MainState::send_who_info unit=who props=C12,C04,C05 rules=R2,R5b
 //@spec
         ensures
+            r is Ok,
             conn_same_but_stream(*final(conn_state), *old(conn_state)), // @prop C12
             // an invisible user sharing no channel with the asker is not revealed
             !user_visible_to(*user, *cmd_user) ==> final(conn_state).stream.log() == old(conn_state).stream.log(), // @prop C12
@@ -32,5 +33,79 @@ impl MainState {
                 && who_line_names(final(conn_state).stream.log().last(), user_nick@),
 //@open
         broadcast use group_hash_axioms, bridge, ax_fed_reply, ax_string_add_assign_req;
+//@end
+}
+
+// every 352 line appended names a user that is visible to the asker (in state s)
+pub open spec fn who_lines_visible(old_log: Seq<FedItem>, new_log: Seq<FedItem>, s: VolatileState, q: User) -> bool {
+    forall|k: int| old_log.len() <= k < new_log.len() - 1 ==>
+        exists|n: String| s.users@.contains_key(n) && user_visible_to(s.users@[n], q) && who_line_names(#[trigger] new_log[k], n@)
+}
+impl MainState {
+//@fn state/rest_cmds.rs MainState::process_who unit=who props=C12,C04,C05 rules=R1,R2,R14,R20
+//@spec
+        requires state_wf(*old(state)), conn_ok(*old(conn_state), *old(state)),
+        ensures
+            conn_same_but_stream(*final(conn_state), *old(conn_state)), // @prop C12
+            *final(state) == *old(state), // @prop C12
+            log_extends(old(conn_state).stream.log(), final(conn_state).stream.log()), // @prop C12
+            final(conn_state).stream.log().len() >= old(conn_state).stream.log().len() + 1, // @prop C12
+            // nobody invisible to the asker is revealed
+            r is Ok ==> who_lines_visible(old(conn_state).stream.log(), final(conn_state).stream.log(), *old(state), old(state).users@[my_nick(*old(conn_state))]), // @prop C12
+            // existence clause: a secret channel the asker is not on is answered exactly like a channel that does not exist
+            !has_char(mask@, '*') && !has_char(mask@, '?') && is_channel_name(mask@) && (!old(state).channels@.contains_key(sk(mask)) // @prop C12
+                    || !chan_visible_to(old(state).channels@[sk(mask)], my_nick(*old(conn_state)))) ==>
+                final(conn_state).stream.log() == old(conn_state).stream.log().push(fed(self.config.name@,
+                    Reply::RplEndOfWho315 { client: str_of(client_name_spec(old(conn_state).user_state)), mask })),
+//@open
+        broadcast use group_hash_axioms, bridge, ax_fed_reply;
+        let ghost log0 = conn_state.stream.log();
+        let ghost s0 = *old(state);
+        let ghost me = my_nick(*conn_state);
+//@loop ~for \(unick, u\) in state\.users\.iter\(\) iter=it1
+                invariant
+                    conn_same_but_stream(*conn_state, *old(conn_state)), *state == s0, state_wf(s0), s0.users@.contains_key(me), *user == s0.users@[me],
+                    log_extends(log0, conn_state.stream.log()), log0 == old(conn_state).stream.log(),
+                    forall|k: int| log0.len() <= k < conn_state.stream.log().len() ==>
+                        exists|n: String| s0.users@.contains_key(n) && user_visible_to(s0.users@[n], *user) && who_line_names(#[trigger] conn_state.stream.log()[k], n@),
+                    forall|i: int| 0 <= i < it1.seq().len() ==> s0.users@.contains_key(*(#[trigger] it1.seq()[i]).0) && s0.users@[*it1.seq()[i].0] == *it1.seq()[i].1,
+//@after ~for \(unick, u\) in state\.users\.iter\(\)
+                broadcast use group_hash_axioms, bridge, ax_fed_reply;
+                let ghost lg1 = conn_state.stream.log();
+                proof { assert(s0.users@.contains_key(*unick) && s0.users@[*unick] == *u); }
+//@endloop ~for \(unick, u\) in state\.users\.iter\(\)
+                proof {
+                    let lg2 = conn_state.stream.log();
+                    assert forall|k: int| log0.len() <= k < lg2.len() implies
+                        exists|n: String| s0.users@.contains_key(n) && user_visible_to(s0.users@[n], *user) && who_line_names(#[trigger] lg2[k], n@) by {
+                        if k < lg1.len() { assert(lg2[k] == lg1[k]); }
+                        else { assert(who_line_names(lg2[k], unick@)); assert(s0.users@.contains_key(*unick) && user_visible_to(s0.users@[*unick], *user)); }
+                    }
+                }
+//@loop ~for \(u, chum\) in channel\.users\.iter\(\) iter=it2
+                        invariant
+                            conn_same_but_stream(*conn_state, *old(conn_state)), *state == s0, state_wf(s0), s0.users@.contains_key(me), *user == s0.users@[me],
+                            s0.channels@.contains_key(sk(mask)), *channel == s0.channels@[sk(mask)],
+                            log_extends(log0, conn_state.stream.log()), log0 == old(conn_state).stream.log(),
+                            forall|k: int| log0.len() <= k < conn_state.stream.log().len() ==>
+                                exists|n: String| s0.users@.contains_key(n) && user_visible_to(s0.users@[n], *user) && who_line_names(#[trigger] conn_state.stream.log()[k], n@),
+                            forall|i: int| 0 <= i < it2.seq().len() ==> channel.users@.contains_key(*(#[trigger] it2.seq()[i]).0),
+//@after ~for \(u, chum\) in channel\.users\.iter\(\)
+                        broadcast use group_hash_axioms, bridge, ax_fed_reply;
+                        let ghost lg1 = conn_state.stream.log();
+                        proof {
+                            assert(channel.users@.contains_key(*u));
+                            assert(member(s0, *u, sk(mask)));
+                            assert(string_of(u@) == *u);
+                        }
+//@endloop ~for \(u, chum\) in channel\.users\.iter\(\)
+                        proof {
+                            let lg2 = conn_state.stream.log();
+                            assert forall|k: int| log0.len() <= k < lg2.len() implies
+                                exists|n: String| s0.users@.contains_key(n) && user_visible_to(s0.users@[n], *user) && who_line_names(#[trigger] lg2[k], n@) by {
+                                if k < lg1.len() { assert(lg2[k] == lg1[k]); }
+                                else { assert(who_line_names(lg2[k], u@)); assert(s0.users@.contains_key(*u) && user_visible_to(s0.users@[*u], *user)); }
+                            }
+                        }
 //@end
 }
